@@ -153,6 +153,29 @@ def run_case(ctx, case, model=True):
         # totals = sum over all components; = sum over nodes
         totals_equal(ctx, sys_obs, py_sum(all_comp_obs, len(names)), f"{side} system vs sum of components", where, "total-not-sum-of-components")
         totals_equal(ctx, sys_obs, py_sum(node_obs, len(names)), f"{side} system vs sum of nodes", where, "total-not-sum-of-nodes")
+        # what every switchboard / shaft line reports itself (with and without its detail table), and the system's second entry point
+        try:
+            own, own_nd = [], []
+            if side == "electric":
+                for swb in plant.electric.switchboards.values():
+                    kw = dict(time_interval_s=dt, integration_method=IntegrationMethod.sum_with_time, fuel_specified_by=spec_by)
+                    own.append(R.observe_result(swb.get_fuel_energy_consumption_running_time(**kw)))
+                    own_nd.append(R.observe_result(swb.get_fuel_energy_consumption_running_time_without_details(**kw)))
+            else:
+                for sl in plant.mechanical.shaft_line:
+                    own.append(R.observe_result(sl.get_fuel_calculation_running_hours(time_step=dt, integration_method=IntegrationMethod.sum_with_time,
+                                                                                       fuel_specified_by=spec_by)))
+            for k, (o, mine) in enumerate(zip(own, node_obs)):
+                totals_equal(ctx, o, mine, f"{side} node {k} as reported vs sum of its components", where, "node-not-sum-of-components")
+            totals_equal(ctx, sys_obs, py_sum(own, len(names)), f"{side} system vs sum of the nodes' own results", where, "total-not-sum-of-nodes")
+            for k, (o, mine) in enumerate(zip(own_nd, node_obs)):
+                totals_equal(ctx, o, mine, f"{side} node {k} (without details) vs sum of its components", where, "node-not-sum-of-components")
+            if side == "electric" and case["kind"] == "electric":
+                alt = R.observe_result(plant.electric.get_fuel_energy_consumption_running_time_scalar(fuel_specified_by=spec_by))
+                ctx.count("entry_point", "scalar")
+                totals_equal(ctx, alt, py_sum(all_comp_obs, len(names)), "electric system (scalar entry point) vs sum of components", where, "total-not-sum-of-components")
+        except Exception as e:
+            ctx.fail("predicate", "node-result-raises-" + core.error_class(e), f"{side}: {type(e).__name__}: {e}", where)
         # detail rows
         detail = res.detail_result
         want_rows = []
